@@ -27,6 +27,28 @@ type SpecEnv struct {
 	heapOverride map[string]*Term // evaluate against this heap instead of the current one
 	depth    int
 	assuming bool // the expression is being assumed (callee contract at a call site), not checked
+	calleeFn *ssa.Function // call sites: the function whose contract is being evaluated
+	noRename bool
+}
+
+// renamedParam: the contract of fn (or of a function enclosing it) was written when a receiver or parameter was
+// called `name`; the position is still there under another name, and nothing in fn is called `name` now.
+func (ex *Executor) renamedParam(fn *ssa.Function, name string) string {
+	if fn == nil || ex.S == nil || hasSourceName(fn, name) {
+		return ""
+	}
+	for f := fn; f != nil; f = f.Parent() {
+		spec := ex.S.Funcs[funcKey(f)]
+		if spec == nil || len(spec.Sig) != len(f.Params) {
+			continue
+		}
+		for i, a := range spec.Sig {
+			if a == name && f.Params[i].Name() != name {
+				return f.Params[i].Name()
+			}
+		}
+	}
+	return ""
 }
 
 func (ex *Executor) envFor(st *State, fr *Frame) *SpecEnv {
@@ -234,6 +256,19 @@ func (ex *Executor) evalIdent(name string, env *SpecEnv) (Val, error) {
 	if obj := types.Universe.Lookup(name); obj != nil {
 		if c, ok := obj.(*types.Const); ok {
 			return constVal(c), nil
+		}
+	}
+	if !env.noRename {
+		fn := env.calleeFn
+		if env.fr != nil {
+			fn = env.fr.fn
+		}
+		if nn := ex.renamedParam(fn, name); nn != "" {
+			e2 := *env
+			e2.noRename = true
+			if v, err := ex.evalIdent(nn, &e2); err == nil {
+				return v, nil
+			}
 		}
 	}
 	return Val{}, fmt.Errorf("unknown identifier %q", name)
